@@ -307,6 +307,23 @@ func checkC11(c *Ctx) *report.Result {
 	// the constructor must not return a machine without a controller
 	_, _, hasNil := c.carts()
 	r.Ob("P-nil", !hasNil, "constructed machine always has a cartridge controller", "", "gameboy.New can return a machine whose controller is nil (the decoder would dereference it on the first access)")
+	// the reviewed assumption "row[cycle] is in range" rests on the scheduler lemmas of C02: they
+	// are re-established here on the current tree instead of being taken on trust
+	{
+		sub := checkC02(c)
+		var broken []string
+		for _, f := range sub.Findings {
+			if strings.HasPrefix(f.Rule, "S") || f.Rule == "L-cond" || f.Rule == "L-int" {
+				broken = append(broken, f.Construct)
+			}
+		}
+		sort.Strings(broken)
+		if len(broken) > 4 {
+			broken = append(broken[:4], fmt.Sprintf("... %d more", len(broken)-4))
+		}
+		r.Ob("P-index", len(broken) == 0, "scheduler lemmas that keep the cycle counter inside the current row", "", "row[cycle] in the machine-cycle step is in range only if the fetch routine resets the cycle counter and installs the right early-exit predicate for every row it installs; failing lemmas: "+strings.Join(broken, "; "))
+		r.Extra["scheduler_lemmas_checked"] = sub.Instances
+	}
 	return r
 }
 
